@@ -2,7 +2,7 @@ _TEXT_WR = ("writer part: the control of carquet's writer pipeline (page builder
             "sizes in the metadata, stream writes, status flow) is modelled exactly and instantiated with the component "
             "models (PLAIN, RLE levels, Snappy, LZ4, CRC-32, Thrift page header and footer, page statistics): for every "
             "generated write history the model's file equals the real file BYTE FOR BYTE (codecs UNCOMPRESSED, SNAPPY, LZ4, "
-            "LZ4_RAW) and all call statuses agree; proved for every history: a close that returns OK has produced "
+            "LZ4_RAW; GZIP and ZSTD with the library-produced page bodies as oracle) and all call statuses agree; proved for every history: a close that returns OK has produced "
             "PAR1 ++ data ++ footer ++ len ++ PAR1, and the row groups / column chunks of the footer describe consecutive, gap-free, "
             "non-overlapping byte ranges from offset 4 to the start of the footer with sizes that add up (C05_chunks_tile); the data region is, chunk by chunk, a "
             "concatenation of non-empty pages header(|body|, |stored|, crc32(stored), rows, stats) ++ stored with stored = compress(body), and each chunk's "
@@ -15,7 +15,7 @@ PART = {
     obligations=["Carquet.Properties.C05.C05_envelope", "Carquet.Properties.C05.C05_envelope_real", "Carquet.Properties.C05.C05_chunks_tile", "Carquet.Properties.C05.C05_pages_chain", "Carquet.Properties.C05.C05_written_table"],
     components=["twice", "file", "c05sink"],
     fidelity={"Impl.Writer": "exact (control), byte-exact whole files through Impl.FileReal for codecs 0/1/5/7",
-              "GZIP/ZSTD pages": "not modelled byte-for-byte (zlib/libzstd); statuses only"},
+              "GZIP/ZSTD pages": "whole files byte-for-byte with the page bodies compressed by zlib / libzstd called directly by the harness (levels 6 / 3, gzip wrapper, memLevel 8) as the model's compression oracle"},
     rule="file: random flat schemas (1..4 columns over the 7 writable types, REQUIRED/OPTIONAL), contents with extreme "
          "ints, NaN/-0.0 patterns, empty and long strings, all-null / no-null / run-structured null patterns, zero rows; "
          "6 codec tags; page_size 1 B .. 1 MiB; 0..3 row groups; every column's rows split into 1..4 write_batch calls "
